@@ -15,6 +15,7 @@ import Driver.Footnotes
 import Driver.Scan
 import Driver.Block
 import Driver.Doc
+import Driver.Corpus
 open Lean
 
 def dispatch (op : String) (j : Json) : Except String Json :=
@@ -39,6 +40,8 @@ def dispatch (op : String) (j : Json) : Except String Json :=
   | "doc.parse" => Driver.Doc.parseOp j
   | "inline.tokenize" => Driver.Doc.inlineOp j
   | "unescape" => Driver.Doc.unescapeOp j
+  | "corpus.dump" => Driver.Corpus.dumpOp j
+  | "corpus.run" => Driver.Corpus.runOp j
   | "ping" => pure (Json.str "pong")
   | _ => throw s!"unknown op {op}"
 
